@@ -103,3 +103,85 @@ def in_first_third(i, j, include_top_edge):
 def _dot(a, b):
     """Euclidean dot product of two lattice vectors (axial basis with 60 degrees between axes)."""
     return a[0] * b[0] + a[1] * b[1] + 0.5 * (a[0] * b[1] + a[1] * b[0])
+
+
+# ---------------------------------------------------------------------------------------------
+# additions for C08 (symmetry / rotation); nothing above this line was changed
+
+
+def polar_deg(i, j, corners_up):
+    """Polar angle of the cell centre in degrees in [0, 360), measured in the frame of the lattice:
+    for corners-up grids the lattice is the flats-up lattice rotated 30 degrees counter-clockwise, so
+    30 degrees are subtracted (the third-core "0 degree" line is the image of the flats-up x axis)."""
+    x, y = centre(i, j, 1.0, corners_up)
+    a = math.degrees(math.atan2(y, x)) - (30.0 if corners_up else 0.0)
+    return a % 360.0
+
+
+def angle_near(a_deg, target_deg, tol_deg=1e-7):
+    return abs((a_deg - target_deg + 180.0) % 360.0 - 180.0) <= tol_deg
+
+
+def symmetry_line(i, j):
+    """Which third-core symmetry line the cell centre lies on: 'center', 0, 60, 120 or None.
+
+    Exact: the centre of cell c lies on the ray of direction d iff cross(d, c) == 0 and dot(d, c) > 0.
+    Ray directions in lattice coordinates (flats-up angles): 0 deg = (2,-1), 60 deg = (1,1), 120 deg = (-1,2).
+    """
+    if i == 0 and j == 0:
+        return "center"
+    for deg, d in ((0, (2, -1)), (60, (1, 1)), (120, (-1, 2))):
+        if d[0] * j - d[1] * i == 0 and _dot(d, (i, j)) > 0:
+            return deg
+    return None
+
+
+def cell_number_to_ij(n):
+    """Cumulative 1-based cell number (1 = centre, 2..7 = ring 2 positions 1..6, ...) -> (ring, pos, i, j)."""
+    ring = 1
+    first = 1  # number of the first cell of ``ring``
+    while True:
+        count = 1 if ring == 1 else 6 * (ring - 1)
+        if n < first + count:
+            pos = n - first + 1
+            i, j = ring_cells(ring)[pos - 1]
+            return ring, pos, i, j
+        first += count
+        ring += 1
+
+
+def ij_to_cell_number(i, j):
+    ring = hex_distance(i, j) + 1
+    before = 0 if ring == 1 else 1 + 3 * (ring - 1) * (ring - 2)
+    return before + ring_cells(ring).index((i, j)) + 1
+
+
+def rotated_cell_number(n, k):
+    """Cell number of cell ``n`` after the lattice is turned k * 60 degrees counter-clockwise."""
+    _ring, _pos, i, j = cell_number_to_ij(n)
+    return ij_to_cell_number(*rotate60(i, j, k))
+
+
+def match_point_sets(actual, expected, tol):
+    """True iff the two lists of points are equal as sets within ``tol`` (one-to-one matching)."""
+    if len(actual) != len(expected):
+        return False
+    left = list(expected)
+    for a in actual:
+        hit = None
+        for n, e in enumerate(left):
+            if all(abs(float(x) - float(y)) <= tol for x, y in zip(a, e)):
+                hit = n
+                break
+        if hit is None:
+            return False
+        left.pop(hit)
+    return not left
+
+
+def dedupe_points(points, tol):
+    out = []
+    for p in points:
+        if not any(all(abs(x - y) <= tol for x, y in zip(p, q)) for q in out):
+            out.append(p)
+    return out
